@@ -27,6 +27,11 @@ RepMatches(out, r) ==
   /\ r.initialOk /\ r.finalOk /\ r.chi2sOk /\ r.finalIsChi2
   /\ out.applied \in { r.appliedSet[j] : j \in DOMAIN r.appliedSet }
 
+\* the recorded state must have the shape the actions are defined on (same number of vertices; for a reload: the edges that have a writer);
+\* tested FIRST in every clause that indexes by position, so that a recording of another shape is rejected, not a failure of the evaluation
+Shape(ev) == Len(ev.verts) = Len(verts)
+ReloadShape(ev) == Shape(ev) /\ (ev.raised \/ Len(ev.edges) = Len(Written(edges)))
+
 TInit == Init /\ l = 1 /\ memo = EmptyMemo /\ TLCSet(1, 0) /\ TLCSet(2, 0)
 
 Observe(ev) == verts' = ev.verts /\ edges' = ev.edges /\ obs' = [op |-> ev.op]
@@ -42,19 +47,19 @@ TConstruct(ev) ==
 TQuery(ev) ==
   /\ Observe(ev) /\ status' = status
   /\ LET key == <<ev.q, ev.target>> IN
-       /\ Clause(ev, "query-pure", QueryEffect(ev.q))
+       /\ Clause(ev, "query-pure", Shape(ev) /\ QueryEffect(ev.q))
        /\ Clause(ev, "query-operands", ev.ok)
        /\ Clause(ev, "query-deterministic", key \in DOMAIN memo => memo[key] = ev.result)
        /\ memo' = (key :> ev.result) @@ memo
 
 TSetFixed(ev) ==
   /\ Observe(ev) /\ status' = status /\ memo' = memo
-  /\ Clause(ev, "setfixed-frame", SetFixedEffect(ev.idx, ev.flag))
+  /\ Clause(ev, "setfixed-frame", Shape(ev) /\ SetFixedEffect(ev.idx, ev.flag))
 
 TOptCall(ev) ==
   /\ Observe(ev) /\ status' = status /\ memo' = EmptyMemo
   /\ Clause(ev, "opt-raised", ~ev.raised)
-  /\ Clause(ev, "opt-effect", OptCallEffect(ev.maxIter, ev.fixFirst, [i \in DOMAIN ev.verts |-> ev.verts[i].pose]))
+  /\ Clause(ev, "opt-effect", Shape(ev) /\ OptCallEffect(ev.maxIter, ev.fixFirst, [i \in DOMAIN ev.verts |-> ev.verts[i].pose]))
   /\ Clause(ev, "opt-report", RepMatches(Outcome(Favourable(ev.cls, ev.rep, ev.maxIter), 0, ev.maxIter), ev.rep))
   /\ Clause(ev, "opt-str", ev.raised \/ (ev.rep.strHeaderOk /\ ev.rep.strRows = Outcome(Favourable(ev.cls, ev.rep, ev.maxIter), 0, ev.maxIter).numIter))
   /\ Clause(ev, "opt-verbose", ev.rep.verboseOk)
@@ -63,7 +68,7 @@ TOptCall(ev) ==
 \* the call either refused (state unchanged) or the session continues on the re-imported graph, whose own binding is checked like a construction
 TReload(ev) ==
   /\ Observe(ev) /\ status' = status /\ memo' = EmptyMemo
-  /\ Clause(ev, "reload-effect", ReloadEffect(ev.raised, [i \in DOMAIN ev.verts |-> ev.verts[i].pose], [n \in DOMAIN ev.edges |-> ev.edges[n].num]))
+  /\ Clause(ev, "reload-effect", ReloadShape(ev) /\ ReloadEffect(ev.raised, [i \in DOMAIN ev.verts |-> ev.verts[i].pose], [n \in DOMAIN ev.edges |-> ev.edges[n].num]))
   /\ Clause(ev, "reload-gradient-index", ev.raised \/ \A j \in DOMAIN ev.verts : ev.gidx[j] = GradientIndex(ev.verts, j))
   /\ Clause(ev, "reload-binding", ev.raised \/ \A n \in DOMAIN ev.edges : ev.bound[n] = Bind2(ev.edges[n], ev.verts))
   /\ Clause(ev, "reload-chi2", ev.raised \/ ev.chi2Ok)
